@@ -35,6 +35,7 @@ Call(ev) ==
       obs == Observed(b, ev)
       panicked == ev.panic # ""
       vPanic == IF panicked THEN {V(ev, "panic", 0, ev.panic)} ELSE {}
+      vLeak == IF "left" \in DOMAIN ev /\ ev.left > 0 THEN {V(ev, "goroutine-leak", 0, ev.left)} ELSE {}
       vMap == IF panicked THEN {} ELSE
                 {V(ev, IF s = BTarget(ev) THEN "map" ELSE "interference", s, [exp |-> exp[s], obs |-> obs[s]]) :
                    s \in {t \in BSlots : exp[t] # obs[t]}}
@@ -47,7 +48,7 @@ Call(ev) ==
               THEN {V(ev, "result", 0, [clauses |-> BClauses(b, ev, ev.ret), neg |-> negX])} ELSE {}
   IN /\ b' = obs
      /\ Cols' = Cols
-     /\ Record(vPanic \cup vMap \cup vRead \cup vCard \cup vPlanes \cup vRes)
+     /\ Record(vPanic \cup vLeak \cup vMap \cup vRead \cup vCard \cup vPlanes \cup vRes)
 
 Next ==
   /\ l <= Len(Trace)
